@@ -442,7 +442,9 @@ func (g *syncGen) ingress(ns, name string, ts int) world.IngressSpec {
 			// ingresses; what the shared `_auth_backendNNN` server line looks like must not depend on who comes first
 			// (seed C06f)
 			s.Annotations["auth-url"] = gen.Pick(r, []string{"http://10.9.9.9:8000/auth", "https://10.9.9.9:8000/auth", "https://10.9.9.9:8000/other",
-				"http://10.9.9.8:8000/auth", "https://10.9.9.7:8443/auth", "svc://app:80/auth"})
+				"http://10.9.9.8:8000/auth", "https://10.9.9.7:8443/auth"})
+			// (no svc:// targets here: they create a backend no path declares, which the balance clause of the C06
+			// driver reads as backend-without-declaration — a false alarm of the first sweep; C09 / C18 cover svc://)
 			if r.Chance(1, 4) {
 				s.Annotations["auth-external-placement"] = "frontend"
 			}
